@@ -25,6 +25,9 @@ func recordWalk(c Case, info Info) {
 	st.AddExtra("lru_verifwalk_calls", int64(info.Walks))
 	st.AddExtra("lru_checkpoints_1000_ops", int64(info.Checkpoints))
 	st.AddExtra("lru_calls_executed", int64(info.OpsDone))
+	st.AddExtra("lru_retention_measurements", int64(info.Retain.Measures))
+	st.AddExtra("lru_retention_measurements_undecided", int64(info.Retain.Undecided))
+	st.AddExtra("lru_retention_gc_cycles", int64(info.Retain.Cycles))
 }
 
 // exhaustiveConfig is one (shape, capacity, keys, depth) cell of the bounded-exhaustive part.
@@ -302,6 +305,8 @@ func genLong(t *rapid.T) Case {
 		c.Ops = append(c.Ops, Op{K: "c"})
 	}
 	c.Stride = rapid.IntRange(0, c.Keys-1).Draw(t, "stride")
+	c.NoCB = rapid.IntRange(0, 2).Draw(t, "noCallback") == 0 // one long history in three runs on a cache built without a delete callback
+	c.Measure = true                                        // retention measurements (retain.go) at every checkpoint and at the end
 	var total int
 	switch rapid.IntRange(0, 9).Draw(t, "lenClass") {
 	case 0, 1, 2, 3:
@@ -339,6 +344,7 @@ func TestC11LruRapid(t *testing.T) {
 	st := vstat.For(propWalk)
 	rapid.Check(t, func(t *rapid.T) {
 		c := genCase(t)
+		c.Measure = rapid.IntRange(0, 63).Draw(t, "measureRetention") == 37 // a few cases in a hundred carry the collector-based retention measurements
 		info, v := RunWalk(c)
 		if st.Report(t, "TestC11LruRapid", c, v) {
 			return
